@@ -47,7 +47,7 @@ def brownian(S, B, m, levy, prefix=''):
     return dW, U, A
 
 
-def setup(E, noise, sde_type, B=2, d=2, m=2, levy='none', eta_limit=2, fresh=True):
+def setup(E, noise, sde_type, B=2, d=2, m=2, levy='none', eta_limit=2, fresh=True, per_row=True):
     if fresh:
         fresh_engine_state(E, eta_limit)
     S = XS()
@@ -56,6 +56,7 @@ def setup(E, noise, sde_type, B=2, d=2, m=2, levy='none', eta_limit=2, fresh=Tru
     gshape = (d,) if noise == 'diagonal' else (d, m)
     S.f = jets.DynJetFunction('F', d, (d,))
     S.g = jets.DynJetFunction('G', d, gshape, elementwise=(noise == 'diagonal'), ydep=(noise != 'additive'))
+    S.g.per_row = per_row   # additive noise: independent of the state, but not necessarily the same for every batch row
     S.user = H.make_user_sde(noise, sde_type, {'f': S.f, 'g': S.g})
     S.sde = H.forward_sde(E, S.cx, S.user)
     S.t0, S.dt = Poly.var('t0'), Poly.var('dt')
